@@ -35,6 +35,10 @@ LITERALS = [
     # integer literals on float fields are converted with Into (f64: From<i32>); f32 has no such conversion
     ("f64", "1", "f64:1.0"), ("f64", "7u8", "f64:7.0"), ("f32", "7u8", "f32:7.0"),
     ("f64", "0x10", "f64:16.0"),
+    # `= false` is a value like any other (not "switched off"): types whose From<bool>(false) differs from their Default
+    (RT + "W", "false", "W:600"), ("::core::option::Option<bool>", "false", "S(bool:false)"),
+    ("::core::option::Option<bool>", "true", "S(bool:true)"), ("bool", "false", "bool:false"),
+    ("::core::option::Option<u8>", "0", "S(u8:0)"), ("::core::option::Option<char>", "'\\0'", "S(char:0)"),
 ]
 # string literals whose text looks like code: they are values, never parsed
 for _txt in ["String::new()", "x.len()", "vec![1]", "1 + 2", "Default::default()", "::core::default::Default::default()",
